@@ -43,9 +43,15 @@ def _h64(x):
 
 def execute(prop, cfg, ops=None, streams=None, max_ops=None):
     """Run one simulation in this process. With ops given it is a pure function of (cfg, ops)."""
-    world = prop.World(cfg)
     h = hashlib.sha256()
     rec, states, viol = [], set(), None
+    try:
+        world = prop.World(cfg)
+    except Viol as v:
+        # the initial world (e.g. the parse under test) already violates an invariant
+        viol = {"inv": v.inv, "sig": v.sig, "detail": v.detail, "step": -1}
+        h.update(("VIOL" + v.inv + "|" + v.sig).encode())
+        return {"cfg": cfg, "ops": [], "violation": viol, "stats": {}, "states": [], "digest": h.hexdigest()[:24], "steps": 0, "nontrivial": False, "ticks": 0}
     n = len(ops) if ops is not None else (max_ops if max_ops is not None else cfg.get("n_ops", 0))
     step = -1
     try:
